@@ -6,6 +6,7 @@
  *   FI_AT     1-based index of the monitored operation at which to act (0 = never)
  *   FI_MODE   err | sticky | kill_before | kill_after | kill_torn
  *   FI_ERRNO  errno for err/sticky (default ENOSPC)
+ *   FI_AT2    optional index of a second operation that fails once (fault sequences)
  *   FI_ARMED  operations are only counted while getenv("FI_ARMED") is "1" (set from Python via os.environ)
  */
 #define _GNU_SOURCE
@@ -74,6 +75,12 @@ static int decide(const char *kind, const char *path, long size, int is_write) {
     const char *mode = getenv("FI_MODE");
     if (!mode) mode = "err";
     if (sticky_on && is_write) return 1;
+    {
+        /* optional second single fault (always an error return) for fault sequences */
+        const char *at2_s = getenv("FI_AT2");
+        long at2 = at2_s ? atol(at2_s) : 0;
+        if (at2 > 0 && op_count == at2) return 1;
+    }
     if (at <= 0 || op_count != at) return 0;
     if (!strcmp(mode, "err")) return 1;
     if (!strcmp(mode, "sticky")) { sticky_on = 1; return 1; }
